@@ -251,9 +251,9 @@ def eval_cases(ck, name, cases, sids):
         for r in c["runs"]:
             runs.append("{| or_os := %s; or_ok := %s; or_items := %s |}" % (
                 coq_os(r.get("fault")), coq_bool(r["ok"]), coq_log(r["log"], sids, cloud, sids.ids_of)))
-        items.append("{| c_id := %d%%Z; c_cfg := %s; c_nhosts := %d%%nat; c_runs := [%s]; c_clean := true; c_hosts := [%s]; c_ver_tbl := %s; c_vd_tbl := %s; c_vers := %s |}" % (
+        items.append("{| c_id := %d%%Z; c_cfg := %s; c_nhosts := %d%%nat; c_runs := [%s]; c_clean := true; c_hosts := [%s]; c_ver_tbl := %s; c_vd_tbl := %s; c_vers := %s; c_conn := [%s] |}" % (
             c["id"], coq_cfg(c["cfg"]), max(1, c.get("nhosts") or 1), ";\n    ".join(runs), "; ".join(hosts), coq_bool(c["final"]["ver_tbl"]), coq_bool(c["final"]["vd_tbl"]),
-            coq_vers(c["final"]["vers"])))
+            coq_vers(c["final"]["vers"]), "; ".join("%d%%nat" % j for j in (c.get("conn") or []))))
     txt = ("From Coq Require Import List String NArith ZArith Bool.\n"
            "From Qryn Require Import model.Migrate gen.GenScripts.\nImport ListNotations.\n"
            "Open Scope string_scope.\nOpen Scope list_scope.\nOpen Scope N_scope.\n"
@@ -561,8 +561,11 @@ def run(ck):
         "replication of data / metadata between replicas of one shard is not modelled",
         "C18: the statement classifier (translate/gen_scripts, ported in harness/cmd/migrate/classify.go); column types, codecs, partition keys, "
         "TTL and SETTINGS clauses are not part of the modelled schema (names, kinds, engines, columns, sorting keys, view definitions by digest are)",
-        "C18: the process always connects to the same host; ver rows live there (INSERT INTO ver has no ON CLUSTER) and ver_dist reads them; "
-        "max(ver) of an empty table is 0",
+        "C18: ver rows are written to the local table of the connected host (INSERT INTO ver has no ON CLUSTER): a Replicated ver shares them among the "
+        "hosts of one shard, a plain ver keeps them on that host (such hosts are taken to be one shard each); SELECT FROM ver reads that place only, "
+        "SELECT FROM ver_dist reads every shard; max(ver) of an empty table is 0.  The connected host may differ from start to start in the model and the fake; "
+        "the generator varies it for the LAST start only (the one that must find the database up to date) -- a resumed start through another host "
+        "spreads the statements without ON CLUSTER over several hosts, which the expected-schema clause does not describe",
     ]
     env = dict(os.environ)
     env["VERIF_REPO"] = vcheck.REPO
@@ -676,6 +679,11 @@ def run(ck):
     if ck.obligation("harness migrate ran (ON CLUSTER statements completing on some hosts only)", rc == 0, out[-1500:]):
         cases += take(pa_out)
 
+    el_out = os.path.join(ck.work, "elsewhere.jsonl")
+    rc, out = ck.go_run("migrate", ["--seed", ck.seed, "--elsewhere", ck.n(2, 12), "--out", el_out])
+    if ck.obligation("harness migrate ran (the last start reaches the cluster through another host: replica of the same shard / other shard)", rc == 0, out[-1500:]):
+        cases += take(el_out)
+
     gen_out = os.path.join(ck.work, "gen.jsonl")
     n = ck.n(200, 3000)
     rc, out = ck.go_run("migrate", ["--seed", ck.seed, "--n", n, "--errtexts", pool_file, "--out", gen_out])
@@ -702,10 +710,14 @@ def run(ck):
                   not unknown, "unknown statements (structure|text -> first case id): %s" % list(unknown.items())[:4])
 
     mism, viol = [], []
-    shard = 400
-    for k in range(0, len(cases), shard):
-        # coq/cases is shared by concurrent runs (other VERIF_REPO): the file name carries repository tag and pid
-        m, v, out = eval_cases(ck, "C18_%s_%d_cases_%d" % (vcheck.repo_tag(), os.getpid(), k // shard), cases[k:k + shard], sids)
+    shard = 220
+    # coq/cases is shared by concurrent runs (other VERIF_REPO): the file name carries repository tag and pid.
+    # round 7: the shards are evaluated by up to 4 coqc processes side by side (results taken in order)
+    from concurrent.futures import ThreadPoolExecutor
+    with ThreadPoolExecutor(max_workers=4) as ex:
+        parts = list(ex.map(lambda k: eval_cases(ck, "C18_%s_%d_cases_%d" % (vcheck.repo_tag(), os.getpid(), k // shard), cases[k:k + shard], sids),
+                            range(0, len(cases), shard)))
+    for m, v, out in parts:
         if m is None:
             ck.obligation("cases evaluated inside Coq", False, out[-1500:])
             return
@@ -729,12 +741,13 @@ def run(ck):
         cid, code, slug = min(new_viol, key=lambda x: (len(byid[x[0]]["faults"] or []), sum(len(r["log"]) for r in byid[x[0]]["runs"])))
         c = byid[cid]
         ck.violation({"property": "C18", "kind": SPEC_CODE.get(code, "spec violation %d" % code), "slug": slug, "cfg": c["cfg"], "nhosts": c.get("nhosts") or 1,
+                      "shards": c.get("shards") or "host i = shard i", "connected_host_per_start": c.get("conn") or "host 0 for every start",
                       "mode": c.get("class", ""), "faults": c["faults"], "failure_points": failure_points(c, sids, gen), "why": c.get("why", ""),
                       "runs": [{"fault": r.get("fault"), "returned_nil": r["ok"], "err": r.get("err", ""), "calls": len(r["log"]),
                                 "last_calls": r["log"][-3:]} for r in c["runs"]],
                       "final_versions": c["final"]["vers"],
                       "explanation": "spec_code (model/Migrate.v) = %d on the observations of the real maintenance.Update against the fake ClickHouse" % code,
-                      "replay": "write {\"cfg\":...,\"faults\":...} of this file as one JSON line and run: harness migrate --cases <file>"})
+                      "replay": "write {\"cfg\":...,\"nhosts\":...,\"shards\":...,\"conn\":...,\"faults\":...} of this file as one JSON line and run: harness migrate --cases <file>"})
     elif mism:
         c = min((byid[i] for i in mism), key=lambda c: (len(c["faults"] or []), sum(len(r["log"]) for r in c["runs"])))
         ck.violation({"property": "C18", "kind": "model/implementation disagree; the property's oracle still accepts all observed histories",
@@ -769,10 +782,11 @@ def run(ck):
             distinct.add(json.dumps(["boot", c["cfg"], c.get("nhosts"), c["faults"]], sort_keys=True))
     ck.coverage["evaluations"] += len(cases) + len(conc_cases) + len(boot_cases)
     ck.coverage["distinct_nontrivial"] += len(distinct)
-    ck.coverage["rule"] += ("cases = configuration (single / cloud / clustered / cloud+clustered, rarely the two inconsistent mixes; 1-3 hosts when clustered) x 0..5 interrupted starts, "
+    ck.coverage["rule"] += ("cases = configuration (single / cloud / clustered / cloud+clustered, rarely the two inconsistent mixes; 1-3 hosts when clustered, half of the multi-host ones laid out in 1-2 shards with the last start through a random host) x 0..5 interrupted starts, "
                             "each failing one database call (drawn among the calls that start would really make; 60% after the effect, 40% before; with several hosts 40% "
                             "'completed on a random subset of the hosts, caller gets the ON CLUSTER timeout'), then two undisturbed starts; "
                             "plus, per clustered configuration, one in three (thorough: every) script statements of a first start cut short on a random host subset, half of them again at the resume statement; "
+                            "*/last-start-through-* = clustered configurations on 2-3 hosts in shards {0,1} {0,0,1} {0,1,1}, the last start connected to another replica of the shard / a host of another shard, after a clean or a once-interrupted initialisation; "
                             "thorough tier adds every call x {before, after} of a first start in the four main configurations. "
                             "concurrent/* = two maintenance.Update goroutines on one fake database under a generated schedule (stale reader / lockstep / bursts, "
                             "1 call in 400 failing), killed when the schedule ends, then two undisturbed solo starts. "
